@@ -93,13 +93,45 @@ class FS(object):
                         return r
                     return w
                 return real
+        class ShutilProxy(object):
+            """shutil.move / copy*: a rename when source and destination are on one file system (atomic), otherwise what shutil really does -
+            the destination is opened for writing (truncated) and filled piecemeal, then the source is removed - with a boundary at each step."""
+            def __getattr__(self, n):
+                real = getattr(shutil, n)
+                if n not in ("move", "copy", "copyfile", "copy2"):
+                    return real
+
+                def w(src, dst, *a, **kw):
+                    target = os.path.join(dst, os.path.basename(src)) if os.path.isdir(dst) else dst
+                    same_fs = os.stat(src).st_dev == os.stat(os.path.dirname(os.path.abspath(target)) or ".").st_dev
+                    if n == "move" and same_fs:
+                        fs.boundary("shutil.move(rename)")
+                        return real(src, dst, *a, **kw)
+                    fs.boundary("shutil.%s(open destination)" % n)
+                    data = builtins.open(src, "rb").read()
+                    f = builtins.open(target, "wb")
+                    try:
+                        fs.boundary("shutil.%s(copy-begin)" % n)
+                        f.write(data[:len(data) // 2])
+                        f.flush()
+                        fs.boundary("shutil.%s(copy-mid)" % n)
+                        f.write(data[len(data) // 2:])
+                        f.flush()
+                        fs.boundary("shutil.%s(copy-end)" % n)
+                    finally:
+                        f.close()
+                    if n == "move":
+                        fs.boundary("shutil.move(remove source)")
+                        os.unlink(src)
+                    return target
+                return w
         for m in (tools, manager):
             m.open = open_proxy
             m.os = OsProxy()
             if hasattr(m, "tempfile") or m is tools:
                 m.tempfile = TempProxy()
-        if hasattr(tools, "shutil"):
-            pass
+            if hasattr(m, "shutil"):
+                m.shutil = ShutilProxy()
 
     def boundary(self, kind):
         if self.hook is not None:
@@ -283,6 +315,39 @@ def replay_path(run, fs, g, path, rng, base):
     return ok
 
 
+def fresh_config_home(run, rng, base):
+    """The very first save on a machine: the user's configuration home does not exist yet (nor does anything below it).  Saving a never-used
+    profile creates what is missing; the configuration is then loaded by profile name."""
+    from yowsup.config.manager import ConfigManager
+    old = os.environ.get("XDG_CONFIG_HOME")
+    try:
+        for i, (fmt, api) in enumerate((("json", "manager"), ("keyval", "manager"), ("json", "profile"))):
+            top = tempfile.mkdtemp(prefix="home_", dir=base)
+            home = os.path.join(top, "not", "there", "yet") if i != 1 else os.path.join(top, "missing")
+            os.environ["XDG_CONFIG_HOME"] = home
+            cfg = gen_config(rng, fmt)
+            want = cfg_key(cfg)
+            run.case(("fresh-config-home", fmt, api))
+            try:
+                if api == "profile":
+                    from yowsup.profile.profile import YowProfile
+                    YowProfile(PROFILE).write_config(cfg)
+                else:
+                    ConfigManager().save(PROFILE, cfg, ConfigManager.TYPE_JSON if fmt == "json" else ConfigManager.TYPE_KEYVAL)
+                st, got = load_from(home, PROFILE)
+            except Exception as e:
+                st, got = "error", "%s: %s" % (type(e).__name__, e)
+            if st != "ok" or got != want:
+                run.violation("roundtrip:%s:fresh-config-home" % fmt, "first save (%s, %s) with a configuration home that does not exist yet, then load by profile name: %s" % (
+                    fmt, api, got if st == "error" else ("nothing" if got is None else "a different config")), {"fmt": fmt, "api": api})
+            shutil.rmtree(top, ignore_errors=True)
+    finally:
+        if old is None:
+            os.environ.pop("XDG_CONFIG_HOME", None)
+        else:
+            os.environ["XDG_CONFIG_HOME"] = old
+
+
 def path_roundtrips(run, rng, base, n):
     """Save to an explicit destination, load by path with / without extension; and YowProfile.write_config."""
     from yowsup.config.manager import ConfigManager
@@ -390,6 +455,7 @@ def run():
             replay_path(r, fs, g, p, rng, work)
             r.cov["traces_validated_against_impl"] += 1
         path_roundtrips(r, rng, work, 400 if thorough else 80)
+        fresh_config_home(r, rng, work)
         one_manager_history(r, rng, work, 200 if thorough else 40)
     finally:
         shutil.rmtree(work, ignore_errors=True)
